@@ -70,7 +70,7 @@ fn main() {
             let mut ctx = mon::Ctx::new(id_static, tier, seed, budget);
             ctx.replaying = true;
             ctx.begin_case(phase, idx);
-            let r = mon::guard(|| chk.run_case(&mut ctx, phase, idx));
+            let r = mon::guard_case(|| chk.run_case(&mut ctx, phase, idx));
             if let Err(p) = r {
                 println!("case panicked: {} at {}:{}", p.msg, p.file, p.line);
             }
